@@ -32,8 +32,25 @@ impl Argument for RawBytes {
     }
 }
 
+/// User-defined renderer that is not a pure function: emits `first` the first time it is asked
+/// to render and `later` every time after that.
+pub struct Flaky {
+    first: Vec<u8>,
+    later: Vec<u8>,
+    calls: std::cell::Cell<u32>,
+}
+
+impl Argument for Flaky {
+    fn render(&self, buf: &mut BytesMut) {
+        let n = self.calls.get();
+        self.calls.set(n + 1);
+        buf.put_slice(if n == 0 { &self.first } else { &self.later });
+    }
+}
+
 #[derive(Debug, Clone, Serialize, Deserialize)]
 pub enum ArgOp {
+    Flaky(B, B),
     Str(String),
     OwnedString(String),
     Raw(B),
@@ -56,6 +73,7 @@ impl ArgOp {
             ArgOp::Str(s) => f(&s.as_str()),
             ArgOp::OwnedString(s) => f(&s.clone()),
             ArgOp::Raw(b) => f(&RawBytes(b.0.clone())),
+            ArgOp::Flaky(a, b) => f(&Flaky { first: a.0.clone(), later: b.0.clone(), calls: std::cell::Cell::new(0) }),
             ArgOp::Bool(b) => f(b),
             ArgOp::U8(v) => f(v),
             ArgOp::U16(v) => f(v),
@@ -158,10 +176,18 @@ pub fn check(case: &Case) -> CaseResult {
         r.class("name_accepted");
         let mut twin = Command::build(&spec.name).expect("same name builds twice");
         let (mut accepted, mut rejected) = (0, 0);
+        let mut any_impure = false;
 
         for op in &spec.ops {
             let mut rendered = BytesMut::new();
-            op.with(&mut |a| a.render_dyn(&mut rendered));
+            let impure = matches!(op, ArgOp::Flaky(..));
+            if impure {
+                // what such an argument "contains" is undefined; only the outcome is judged: the
+                // command must stay one line, a rejection must roll back
+                any_impure = true;
+            } else {
+                op.with(&mut |a| a.render_dyn(&mut rendered));
+            }
             let has_lf = rendered.contains(&b'\n');
             let snapshot = cmd.clone();
             let snap_hash = hash_of(&cmd);
@@ -179,7 +205,9 @@ pub fn check(case: &Case) -> CaseResult {
                         return r;
                     }
                     accepted += 1;
-                    op.with(&mut |a| a.add_to(&mut twin)).expect("twin accepts what main accepted");
+                    if !any_impure {
+                        op.with(&mut |a| a.add_to(&mut twin)).expect("twin accepts what main accepted");
+                    }
                 }
                 Err(_) => {
                     rejected += 1;
@@ -211,7 +239,8 @@ pub fn check(case: &Case) -> CaseResult {
             r.class("rejected_and_accepted");
             r.nontrivial();
         }
-        if cmd != twin || hash_of(&cmd) != hash_of(&twin) || sent_bytes(cmd.clone()) != sent_bytes(twin.clone()) {
+        r.class_if(any_impure, "impure_renderer");
+        if !any_impure && (cmd != twin || hash_of(&cmd) != hash_of(&twin) || sent_bytes(cmd.clone()) != sent_bytes(twin.clone())) {
             r.fail(format!(
                 "after rejected arguments the command differs from one that never saw them: {:?} vs {:?}",
                 escape_bytes(&sent_bytes(cmd.clone())),
@@ -247,7 +276,7 @@ pub fn check(case: &Case) -> CaseResult {
                 list = list.command(c);
             }
         }
-        2 => list.extend(it),
+        2 => list.extend(it.filter(|_| true)),
         _ => {
             let rest: Vec<Command> = it.collect();
             let mid = rest.len() / 2;
@@ -392,6 +421,8 @@ fn arg_op() -> impl Strategy<Value = ArgOp> {
         3 => lf_string().prop_map(ArgOp::Str),
         1 => lf_string().prop_map(ArgOp::OwnedString),
         3 => raw_bytes().prop_map(ArgOp::Raw),
+        1 => (raw_bytes(), raw_bytes()).prop_map(|(a, b)| ArgOp::Flaky(a, b)),
+        1 => (arg_string(8), lf_string()).prop_map(|(a, b)| ArgOp::Flaky(B(a.into_bytes()), B(b.into_bytes()))),
         1 => any::<bool>().prop_map(ArgOp::Bool),
         1 => any::<u8>().prop_map(ArgOp::U8),
         1 => any::<u16>().prop_map(ArgOp::U16),
